@@ -12,6 +12,7 @@ import ClaripyProofs.Lemmas.VSA.AshrSound
 import ClaripyProofs.Lemmas.VSA.MeetFinal
 import ClaripyProofs.Lemmas.VSA.MulTop
 import ClaripyProofs.Lemmas.VSA.ModSound
+import ClaripyProofs.Lemmas.VSA.AlignedConcat
 /-!
 # C21 — strided-interval transfer functions are sound
 
@@ -362,6 +363,85 @@ theorem C21_mod_sound_partial (a b r : SI) (ha : a.WF) (hb : b.WF) (hbits : a.bi
 example : (SI.new 4 3 13 6).mem 3 ∧ (SI.new 4 2 3 7).mem 5 ∧ (SI.new 4 2 3 7).Aligned ∧
     (∃ r, (SI.new 4 3 13 6).mod (SI.new 4 2 3 7) = .ok r ∧ r.mem (Conc.urem 4 3 5) ∧ r.mem (Conc.urem 4 13 7)) := by
   refine ⟨by decide, by decide, by decide, ⟨_, rfl, by decide, by decide⟩⟩
+
+/-! ## alignment (the upper bound is a member) is preserved by every transfer function
+
+`mul`, `eq`/`ne` and `mod` are sound on ALIGNED operands only.  The theorems below show that alignment is an invariant of the
+whole operation set of the backend: the result of every operation on aligned, non-empty, well-formed operands (in
+constructor-normal form where the operation splits at the north pole) is aligned; `neg`, `not`, `and`, `xor`, `udiv` return
+aligned intervals whatever the operands are, `sub` and `mod` only need the left operand aligned.  Technique: a non-empty interval
+is aligned iff its upper bound is a member (`aligned_of_mem_ub`), and the upper bound of a result is the image of members of
+the operands, so alignment of the result is the SOUNDNESS theorem at one point; joins of pieces by `lub_aligned`.  On the real
+code: exhaustive at widths ≤ 3, sampled at 4–5 — the only operation of the class that breaks alignment is `widen` (C22). -/
+
+theorem C21_add_aligned (a b : SI) (ha : a.WF) (hb : b.WF) (hbits : a.bits = b.bits) (hab : a.bottom = false)
+    (hbb : b.bottom = false) (ala : a.Aligned) (alb : b.Aligned) : (a.add b).Aligned :=
+  add_aligned a b ha hb hbits hab hbb ala alb
+
+/-- the subtrahend need not be aligned -/
+theorem C21_sub_aligned (a b : SI) (ha : a.WF) (hb : b.WF) (hbits : a.bits = b.bits) (hab : a.bottom = false)
+    (hbb : b.bottom = false) (ala : a.Aligned) : (a.sub b).Aligned :=
+  sub_aligned a b ha hb hbits hab hbb ala
+
+/-- `neg` and `bitwise_not` return aligned intervals whatever the operand -/
+theorem C21_neg_not_aligned (a : SI) (ha : a.WF) (hab : a.bottom = false) :
+    a.neg.Aligned ∧ ∀ r, a.bitwiseNot = .ok r → r.Aligned :=
+  ⟨neg_aligned a ha hab, fun r h => not_aligned a r ha hab h⟩
+
+theorem C21_or_aligned (a b r : SI) (ha : a.WF) (hb : b.WF) (hbits : a.bits = b.bits) (hab : a.bottom = false)
+    (hbb : b.bottom = false) (ala : a.Aligned) (alb : b.Aligned) (h : a.bitwiseOr b = .ok r) : r.Aligned :=
+  or_aligned a b r ha hb hbits hab hbb ala alb h
+
+/-- `bitwise_and`, `bitwise_xor` return aligned intervals whatever the operands -/
+theorem C21_and_xor_aligned (a b r : SI) (ha : a.WF) (hb : b.WF) (hbits : a.bits = b.bits) (hab : a.bottom = false)
+    (hbb : b.bottom = false) : (a.bitwiseAnd b = .ok r → r.Aligned) ∧ (a.bitwiseXor b = .ok r → r.Aligned) :=
+  ⟨and_aligned a b r ha hb hbits hab hbb, xor_aligned a b r ha hb hbits hab hbb⟩
+
+theorem C21_mul_result_aligned (a b r : SI) (ha : a.WF) (hb : b.WF) (hbits : a.bits = b.bits) (hab : a.bottom = false)
+    (hbb : b.bottom = false) (hg : alignedNormal a b) (h : a.mul b = .ok r) : r.Aligned :=
+  mul_aligned a.bits a b r ⟨ha, rfl⟩ ⟨hb, hbits.symm⟩ hab hbb hg.1 hg.2.1 hg.2.2.1 hg.2.2.2 h
+
+/-- `udiv` returns an aligned interval whatever the operands and the iteration order of its result set -/
+theorem C21_udiv_aligned (a b r : SI) (order : List Nat) (ha : a.WF) (hb : b.WF) (hbits : a.bits = b.bits)
+    (hab : a.bottom = false) (hbb : b.bottom = false) (h : a.udiv b order = .ok r) : r.Aligned :=
+  udiv_aligned a b r order ha hb hbits hab hbb h
+
+theorem C21_mod_aligned (a b r : SI) (ha : a.WF) (hb : b.WF) (hbits : a.bits = b.bits) (hab : a.bottom = false)
+    (hbb : b.bottom = false) (ala : a.Aligned) (alb : b.Aligned) (h : a.mod b = .ok r) : r.Aligned :=
+  mod_aligned a.bits a b r ⟨ha, rfl⟩ ⟨hb, hbits.symm⟩ hab hbb ala alb h
+
+/-- the three shifts by interval amounts (the amount may be anything) -/
+theorem C21_shift_aligned (a amt r : SI) (ha : a.WF) (hab : a.bottom = false) (ala : a.Aligned) :
+    (a.lshift amt = .ok r → r.Aligned) ∧ (a.rshiftLogical amt = .ok r → r.Aligned) ∧
+    (a.renorm = a → a.rshiftArith amt = .ok r → r.Aligned) :=
+  ⟨shl_aligned a amt r ha hab ala, lshr_aligned a amt r ha hab ala, fun hn => ashr_aligned a amt r ha hab hn ala⟩
+
+theorem C21_cast_low_aligned (a r : SI) (tok : Nat) (ha : a.WF) (hab : a.bottom = false) (ht : 0 < tok) (ala : a.Aligned)
+    (h : a.castLow tok = .ok r) : r.Aligned := castLow_aligned a r tok ha hab ht ala h
+
+theorem C21_extract_aligned (a r : SI) (hi lo : Nat) (ha : a.WF) (hab : a.bottom = false) (hlo : lo ≤ hi) (hhi : hi < a.bits)
+    (ala : a.Aligned) (h : a.extract hi lo = .ok r) : r.Aligned := extract_aligned a r hi lo ha hab hlo hhi ala h
+
+theorem C21_ext_aligned (a r : SI) (nl : Nat) (ha : a.WF) (hab : a.bottom = false) (hnl : a.bits ≤ nl) (ala : a.Aligned) :
+    (a.zeroExtend nl = .ok r → r.Aligned) ∧ (a.renorm = a → a.signExtend nl = .ok r → r.Aligned) :=
+  ⟨zext_aligned a r nl ha hab hnl ala, fun hn => sext_aligned a r nl ha hab hn hnl ala⟩
+
+theorem C21_concat_aligned (a b r : SI) (ha : a.WF) (hb : b.WF) (hab : a.bottom = false) (hbb : b.bottom = false)
+    (ala : a.Aligned) (alb : b.Aligned) (h : a.concat b = .ok r) : r.Aligned :=
+  concat_aligned a b r ha hb hab hbb ala alb h
+
+/-- non-vacuity: aligned wrapping operands with odd strides; results computed by the model -/
+example : (SI.new 4 3 13 6).Aligned ∧ (SI.new 4 5 1 11).Aligned ∧ ((SI.new 4 3 13 6).add (SI.new 4 5 1 11)).Aligned ∧
+    (∃ r, (SI.new 4 3 13 6).bitwiseOr (SI.new 4 5 1 11) = .ok r ∧ r.Aligned) ∧
+    (∃ r, (SI.new 4 3 13 6).mul (SI.new 4 5 1 11) = .ok r ∧ r.Aligned) ∧
+    (∃ r, (SI.new 4 3 13 6).concat (SI.new 4 5 1 11) = .ok r ∧ r.Aligned) ∧
+    (∃ r, (SI.new 4 3 13 6).signExtend 6 = .ok r ∧ r.Aligned) := by
+  refine ⟨by decide, by decide, by decide, ⟨_, rfl, by decide⟩, ⟨_, rfl, by decide⟩, ⟨_, rfl, by decide⟩, ⟨_, rfl, by decide⟩⟩
+
+/-- an UNALIGNED operand is re-aligned by `~`, `&`, `^`: `2[0,5]` at 3 bits is `{0,2,4}` -/
+example : let u : SI := { bits := 3, stride := 2, lb := 0, ub := 5 }
+    ¬ u.Aligned ∧ (∃ r, u.bitwiseNot = .ok r ∧ r.Aligned) ∧ (∃ r, u.bitwiseAnd (SI.new 3 0 6 6) = .ok r ∧ r.Aligned) := by
+  refine ⟨by decide, ⟨_, rfl, by decide⟩, ⟨_, rfl, by decide⟩⟩
 
 /-! ## bounded tests (not theorems) -/
 
